@@ -5,33 +5,49 @@
 (* appearance) send nA, nB, nC transfers to the recorder R; variants: A with         *)
 (* checkpoint + panic, B through the relay Q (third round), reports in one or two    *)
 (* work reports, R always-accumulating, extras (a transfer to a service without code *)
-(* and one to a service that does not exist), privileged services absent or = R.     *)
+(* and one to a service that does not exist, ten code-less services each receiving   *)
+(* a distinguishable amount), privileged services absent or = R.  R (and A) yield an *)
+(* accumulation output; id sets include indices above 0x10FFFF / in the surrogate    *)
+(* block.                                                                            *)
 EXTENDS Integers, Sequences, FiniteSets, Json, TLC, SequencesExt
 CONSTANTS OutFile, Tier
 VARIABLE x
 
 Counts == { <<1, 0, 0>>, <<2, 1, 0>>, <<1, 1, 1>>, <<6, 6, 0>>, <<7, 6, 0>>, <<7, 7, 0>>, <<12, 0, 1>>, <<13, 0, 0>>,
             <<14, 0, 0>>, <<5, 5, 5>>, <<7, 7, 7>>, <<0, 13, 13>>, <<20, 3, 0>>, <<25, 25, 0>>, <<9, 20, 14>> }
-IdSets == { [a |-> 5, b |-> 1000, c |-> 77, r |-> 9, q |-> 20, n |-> 30], [a |-> 70000, b |-> 3, c |-> 256, r |-> 65536, q |-> 255, n |-> 4] }
+\* the third set: indices that are not Unicode scalar values (above 0x10FFFF, surrogate block 0xD800..0xDFFF) next to a small one;
+\* fb: base of the code-less fan-out services F_1..F_10 of the "extra" variant
+IdSets == { [a |-> 5, b |-> 1000, c |-> 77, r |-> 9, q |-> 20, n |-> 30, fb |-> 40, large |-> FALSE],
+            [a |-> 70000, b |-> 3, c |-> 256, r |-> 65536, q |-> 255, n |-> 4, fb |-> 300, large |-> FALSE],
+            [a |-> 1114117, b |-> 55303, c |-> 2147483000, r |-> 1114200, q |-> 55400, n |-> 4, fb |-> 1114300, large |-> TRUE],
+            [a |-> 2147480000, b |-> 1200000, c |-> 57000, r |-> 56000, q |-> 2000000000, n |-> 1114112, fb |-> 2147481000, large |-> TRUE] }
+Fan == 10
 
 \* gas: the gas limit handed over with the transfer (the driver's business: the specification assumes ample gas)
 Xfg(to, k, base, g) == [i \in 1..k |-> [op |-> "xfer", to |-> to, amt |-> i, tag |-> base + i, gas |-> g]]
 Xf(to, k, base) == Xfg(to, k, base, 3000)
 Op(o) == <<[op |-> o]>>
+Yl(tag) == <<[op |-> "yield", tag |-> tag]>>
+\* one transfer of a distinguishable amount to each code-less fan-out service
+FanOut(ids) == [k \in 1..Fan |-> [op |-> "xfer", to |-> ids.fb + k, amt |-> 50 + k, tag |-> 700 + k, gas |-> 3000]]
 
 Scenario(cnt, ids, ck, relay, split, free, extra, priv) ==
   [svcs |-> << [id |-> ids.a, code |-> TRUE,
-                prog |-> (IF ck THEN Xf(ids.r, 1, 100) \o Op("ckpt") \o Xf(ids.r, cnt[1], 110) \o Op("panic") ELSE Xf(ids.r, cnt[1], 100))],
+                prog |-> (IF ck THEN Xf(ids.r, 1, 100) \o Yl(5) \o Op("ckpt") \o Xf(ids.r, cnt[1], 110) \o Yl(6) \o Op("panic")
+                          ELSE Xf(ids.r, cnt[1], 100) \o Yl(3))],
                [id |-> ids.b, code |-> TRUE, prog |-> IF relay THEN Xfg(ids.q, cnt[2], 200, 4000) ELSE Xf(ids.r, cnt[2], 200)],
                [id |-> ids.c, code |-> TRUE,
-                prog |-> (IF extra THEN Xf(ids.n, 1, 500) \o Xf(4242, 1, 600) ELSE <<>>) \o Xf(ids.r, cnt[3], 300)],
-               [id |-> ids.r, code |-> TRUE, prog |-> Op("rec")],
+                prog |-> (IF extra THEN Xf(ids.n, 1, 500) \o Xf(4242, 1, 600) \o FanOut(ids) ELSE <<>>) \o Xf(ids.r, cnt[3], 300)],
+               [id |-> ids.r, code |-> TRUE, prog |-> Op("rec") \o Yl(7)],     \* yields (item count, 7): two outputs when it runs in two rounds
                [id |-> ids.q, code |-> TRUE, prog |-> Op("rec") \o Xfg(ids.r, 2, 400, 1000)],
-               [id |-> ids.n, code |-> FALSE, prog |-> <<>>] >>,
+               [id |-> ids.n, code |-> FALSE, prog |-> <<>>] >>
+           \o (IF extra THEN [k \in 1..Fan |-> [id |-> ids.fb + k, code |-> FALSE, prog |-> <<>>]] ELSE <<>>),
    reports |-> IF split THEN << <<ids.a>>, <<ids.b, ids.c>> >> ELSE << <<ids.a, ids.b, ids.c>> >>,
    free |-> IF free THEN <<ids.r>> ELSE <<>>,
    priv |-> IF priv THEN ids.r ELSE 0,
-   over12 |-> cnt[1] + cnt[2] + cnt[3] > 12]
+   over12 |-> cnt[1] + cnt[2] + cnt[3] > 12,
+   large |-> ids.large, fan |-> extra,
+   twice |-> free \/ relay]      \* R runs in two rounds: two accumulation outputs of one service
 
 Cases == {Scenario(cnt, ids, ck, relay, split, free, extra, priv) :
             cnt \in Counts, ids \in IdSets, ck \in BOOLEAN, relay \in BOOLEAN, split \in BOOLEAN, free \in BOOLEAN,
